@@ -146,6 +146,8 @@ type Compiler struct {
 	extensions       Extensions
 	deviations       map[string]map[string]struct{}
 	warnings         []xutils.Warning
+	// typedefs on the chain of type references being resolved
+	typedefChain map[parse.Node]bool
 	// Custom Fns list passed in to avoid false positive errors in path
 	// evaluation for configd:must statements when using tools that are run
 	// without custom function plugins present (eg yangc / DRAM).
@@ -2402,6 +2404,17 @@ func (c *Compiler) BuildBaseType(
 		return c.makeBuiltinType(cfgNode, typ, tname.Local, def, hasDef, parentStatus), tname, true
 	}
 	c.assertReferenceStatus(typ, refType, parentStatus)
+
+	// A typedef that is reached again while it is being resolved refers,
+	// directly or through other typedefs, to itself.
+	if c.typedefChain == nil {
+		c.typedefChain = make(map[parse.Node]bool)
+	}
+	if c.typedefChain[refType] {
+		c.error(typ, fmt.Errorf("Typedef cyclic reference: %s", typeName))
+	}
+	c.typedefChain[refType] = true
+	defer delete(c.typedefChain, refType)
 
 	typ2 := refType.ChildByType(parse.NodeTyp)
 	tdef := refType.Def()
